@@ -62,7 +62,8 @@ COMPONENTS = {
     "simulated": ["64 KiB memory and 256-port devices (recording, tick source)", "interrupt controller / interrupting devices",
                   "host program calling Step/Run, editing breakpoints, crashing and restoring CPUs", "console writer and warning logger (C18)",
                   "clock: bus-access tick; testing/synctest fake clock for context deadlines (C13)"],
-    "side_car_outside_family": ["Go race detector on free-running goroutines (C10 d, C13 5): runtime monitoring, not schedule-replayable"],
+    "side_car_outside_family": ["Go race detector on free-running goroutines (C10 d, C13 5): runtime monitoring, not schedule-replayable",
+                                "C13 'reuse' scenarios (one CPU object, late cancel of the previous Run's context): the stale watcher's schedule is the Go scheduler's, the oracle is schedule independent"],
 }
 
 
